@@ -128,6 +128,28 @@ def commit (s : St) (v : View) (pre : String) : St × String :=
   let s := { s with v := v, snaps := s.snaps.push v }
   (s, pre ++ dump s v)
 
+/-- parse a `block` line: registers the block (and its cellbase transaction) and returns it -/
+def parseBlock (s : St) (ts : List String) : Option (St × Block) :=
+  match ts with
+  | ["block", id, parent, _salt, epf, cb, cbid, txs, _props, uncles] =>
+    match parseNat? id, parseNat? parent, (kv epf "ep").bind parseEp, (kv cb "cb").bind parseNat?,
+          (kv cbid "cbid").bind parseNat?, (kv txs "txs").bind parseNatList?, (kv uncles "uncles").bind parseNatList? with
+    | some id, some parent, some e, some cb, some cbid, some txIds, some uncles =>
+      match lookup s.blocks parent, txIds.mapM (lookup s.txs) with
+      | some p, some txl =>
+        let cbTx : Tx := { id := cbid, inputs := [], outputs := if cb = 0 then [] else [⟨0, 0⟩] }
+        let number := p.number + 1
+        let isHead := e.index == 0
+        let rec_ : EpochRec := if isHead then ⟨e.number, number, e.length, parent⟩ else p.epochRec
+        let b : Block := { id := id, parent := parent, number := number, epoch := e, txs := cbTx :: txl,
+                           uncles := uncles, isHead := isHead, epochRec := rec_ }
+        let s := { s with blocks := (id, b) :: s.blocks,
+                          txs := if (lookup s.txs cbid).isSome then s.txs else (cbid, cbTx) :: s.txs }
+        some (s, b)
+      | _, _ => none
+    | _, _, _, _, _, _, _ => none
+  | _ => none
+
 def step (s : St) (ts : List String) : St × String :=
   match ts with
   | ["cfg", l, _, _, _] =>
@@ -154,23 +176,10 @@ def step (s : St) (ts : List String) : St × String :=
     | some id, some fee, some ins, some outs =>
       ({ s with txs := (id, { id := id, inputs := ins, outputs := outs, fee := fee }) :: s.txs }, "ok")
     | _, _, _, _ => (s, "bad-op")
-  | ["block", id, parent, _salt, epf, cb, cbid, txs, _props, uncles] =>
-    match parseNat? id, parseNat? parent, (kv epf "ep").bind parseEp, (kv cb "cb").bind parseNat?,
-          (kv cbid "cbid").bind parseNat?, (kv txs "txs").bind parseNatList?, (kv uncles "uncles").bind parseNatList? with
-    | some id, some parent, some e, some cb, some cbid, some txIds, some uncles =>
-      match lookup s.blocks parent, txIds.mapM (lookup s.txs) with
-      | some p, some txl =>
-        let cbTx : Tx := { id := cbid, inputs := [], outputs := if cb = 0 then [] else [⟨0, 0⟩] }
-        let number := p.number + 1
-        let isHead := e.index == 0
-        let rec_ : EpochRec := if isHead then ⟨e.number, number, e.length, parent⟩ else p.epochRec
-        let b : Block := { id := id, parent := parent, number := number, epoch := e, txs := cbTx :: txl,
-                           uncles := uncles, isHead := isHead, epochRec := rec_ }
-        let s := { s with blocks := (id, b) :: s.blocks,
-                          txs := if (lookup s.txs cbid).isSome then s.txs else (cbid, cbTx) :: s.txs }
-        commit s (process s.v b) "new "
-      | _, _ => (s, "bad-op")
-    | _, _, _, _, _, _, _ => (s, "bad-op")
+  | "block" :: _ =>
+    match parseBlock s ts with
+    | some (s, b) => commit s (process s.v b) "new "
+    | none => (s, "bad-op")
   | ["truncate", id] =>
     match parseNat? id with
     | some id => commit s (truncate s.v id) "ok "
